@@ -1,0 +1,42 @@
+//go:build verif
+
+package rhp
+
+import "go.sia.tech/core/types"
+
+// Verification hooks (property C16): re-export the unexported Merkle helpers.
+
+// VerifProofAccumulator wraps proofAccumulator.
+type VerifProofAccumulator struct{ pa proofAccumulator }
+
+// InsertNode calls proofAccumulator.insertNode.
+func (v *VerifProofAccumulator) InsertNode(h types.Hash256, height int) { v.pa.insertNode(h, height) }
+
+// Root calls proofAccumulator.root.
+func (v *VerifProofAccumulator) Root() types.Hash256 { return v.pa.root() }
+
+// NumLeaves returns proofAccumulator.numLeaves.
+func (v *VerifProofAccumulator) NumLeaves() uint64 { return v.pa.numLeaves }
+
+// VerifSectorAccumulator wraps sectorAccumulator.
+type VerifSectorAccumulator struct{ sa sectorAccumulator }
+
+// Reset calls sectorAccumulator.reset.
+func (v *VerifSectorAccumulator) Reset() { v.sa.reset() }
+
+// AppendNode calls sectorAccumulator.appendNode.
+func (v *VerifSectorAccumulator) AppendNode(h types.Hash256) { v.sa.appendNode(h) }
+
+// AppendLeaves calls sectorAccumulator.appendLeaves.
+func (v *VerifSectorAccumulator) AppendLeaves(leaves []byte) { v.sa.appendLeaves(leaves) }
+
+// Root calls sectorAccumulator.root.
+func (v *VerifSectorAccumulator) Root() types.Hash256 { return v.sa.root() }
+
+// VerifNextSubtreeSize calls nextSubtreeSize.
+func VerifNextSubtreeSize(start, end uint64) uint64 { return nextSubtreeSize(start, end) }
+
+// VerifSectorsChanged calls sectorsChanged.
+func VerifSectorsChanged(actions []RPCWriteAction, numSectors uint64) []uint64 {
+	return sectorsChanged(actions, numSectors)
+}
